@@ -83,17 +83,36 @@ def catch_up(src, n=2, evaluations=3):
 
 @rigged
 def recovery(src, n=2, faults=1, delays=0, rounds=6, closing=12, configs=('LIST+TIMEOUT', 'CORE'),
-             fences=(False, True), failures=('CONTINUE',), split_brain=0):
+             fences=(False, True), failures=('CONTINUE',), split_brain=0, distribution=False):
     """H08c: after a solver-chosen disturbance and a bounded number of quiet rounds every live, mutually reachable,
     non-isolated instance is in the state of its Master - OPERATION (CONCILIATION with the USER strategy and a
     conflict) - with no start / stop job pending"""
     from harness import cluster_common as CC
-    if split_brain:
+    if distribution:
+        # a real start sequence is pending (real rules file; the supervisords answer late) while two crashes /
+        # restarts happen: the Master, the target of the request or a bystander - also an instance that comes back
+        # and is CHECKED but not activated while the DISTRIBUTION lasts
+        target = src.pick_int('target', 0, n - 1)
+        rules = ('<root><application name="app"><start_sequence>1</start_sequence><programs><program name="p1">'
+                 f'<identifiers>10.0.0.{target + 1}:25000</identifiers><start_sequence>1</start_sequence>'
+                 '</program></programs></application></root>')
+        release = src.pick('supervisords_answer_at_round', [4, 7])
+        kinds = [(w, i, None) for i in range(n) for w in ('crash', 'restart')]
+
+        def plan_fn(src):
+            return [(src.pick_int('fault0_round', 3, 4), src.pick_int('fault0_pos', 0, n - 1),
+                     src.pick('fault0_kind', kinds)),
+                    (src.pick_int('fault1_round', 4, 5), 0, src.pick('fault1_kind', kinds))]
+        cl, cfg, plan, senders, traces = CC.run_schedule(src, n=n, rounds=8, closing=closing, configs=configs,
+                                                         fences=fences, failures=failures, plan_fn=plan_fn,
+                                                         rules=rules, release_at=release)
+        sig = 'distribution:' + '+'.join(k[0] for _, _, k in plan)
+    elif split_brain:
         # a partition of 1..split_brain rounds (each side keeps or elects its Master) that heals
-        cl, cfg, plan, senders, traces = CC.run_schedule(src, n=n, rounds=4 + split_brain, closing=closing,
+        cl, cfg, plan, senders, traces = CC.run_schedule(src, n=n, rounds=max(CC.SPLIT_STARTS) + 1 + split_brain, closing=closing,
                                                          configs=configs, fences=fences, failures=failures,
                                                          plan_fn=CC.split_brain_plan(n, split_brain))
-        sig = f'partition-of-{plan[1][0] - plan[0][0]}-rounds-then-heal'
+        sig = CC.separation_length(plan) + '-then-heal'
     else:
         cl, cfg, plan, senders, traces = CC.run_schedule(src, n=n, rounds=rounds, closing=closing, faults=faults,
                                                          delays=delays, configs=configs, fences=fences,
@@ -179,6 +198,10 @@ HARNESSES = [
     Harness('H08c-split', recovery, quick={'n': 2, 'split_brain': 8}, thorough={'n': 3, 'split_brain': 8},
             reach=('quiescent',), timeout=(150, 1500),
             doc='return to OPERATION after a split brain (partition of 1..8 rounds, then heal)'),
+    Harness('H08c-distribution', recovery, quick={'n': 3, 'distribution': True, 'configs': ('LIST+TIMEOUT',),
+                                                  'fences': (False,), 'closing': 14},
+            thorough={'n': 3, 'distribution': True, 'closing': 14}, reach=('quiescent',), timeout=(150, 1500),
+            doc='two crashes / restarts while a real DISTRIBUTION is pending (real rules, slow supervisords)'),
     Harness('H08c-resync', recovery, quick={'n': 2, 'faults': 1, 'delays': 0, 'failures': ('RESYNC',),
                                             'configs': ('LIST+TIMEOUT',), 'fences': (False,)},
             thorough=None, reach=('quiescent',), timeout=(100, 0), doc='same with supvisors_failure_strategy RESYNC'),
